@@ -46,7 +46,7 @@ def case_st(draw):
             if var["type"] == "cat" and var["answers"]:
                 var["answers"] = [var["answers"][0]] * len(var["answers"])
                 break
-    tx, inforce = draw(xforms.slice_insertions_st(sc, where="transforms", max_ins=2,
+    tx, inforce = draw(xforms.slice_insertions_st(sc, where="transforms", max_ins=3,
                                                   allow_malformed=False, allow_diff=True))
     sc["transforms"] = tx
     sc["insertions"] = inforce
